@@ -8,7 +8,7 @@ must accept them, re-save them byte-identically and issue the same read requests
 (3) a generator over rule constructs: save through a chunking stream or a file, load through another
 chunking, compare original and loaded rules on the same buffers (verdicts, matches, tags, metas,
 externals), re-save, and compare the image across two processes with different address-space layout,
-heap fill and initial arena capacity."""
+heap fill and initial arena capacity (two ASan processes and one plain-malloc process with effective ASLR)."""
 import collections
 from vf import core
 from vf.checks import arena_common as ac
@@ -18,12 +18,14 @@ THM = ["YaraModel.Thm.C08"]
 MANIFEST = dict(
     technique="Lean 4 proof over an executable model of arena.c save/load (round trip, original restored, bytes independent of addresses, chunking "
               "invisible) + op-sequence and real-image correspondence + differential save/load/scan of a generated construct corpus across processes",
-    text="proof: Thm/C08.lean proves on the arena model, for every arena satisfying the protocol WF and every allocator, that save writes a function of the "
-         "abstract arena only (no address, capacity or history), that the arena after save equals the arena before, that load(save a) succeeds with the same "
-         "abstract arena (hence re-saving gives the same bytes), and that a stream delivering the image in arbitrary chunks is indistinguishable from the whole "
-         "image. The model is tied to arena.c by random op sequences and by running the Lean loader/saver on real images. That the compiler registers every "
-         "pointer it stores (the WF hypothesis for real rule sets) is sampled: generated rule sets over all constructs are saved, loaded and compared "
-         "behaviourally and byte-wise across two processes.",
+    text="proof: Thm/C08.lean proves on the arena model, for every arena obeying the protocol WF (buffers below 2 GiB), every loader configuration and "
+         "every allocator: saving writes a function of the abstract arena only — no address, capacity or history (save_address_free); no assert of "
+         "yr_arena_save_stream fires and the arena after saving is the arena before (save_no_assert, save_restores); loading the image succeeds with the "
+         "same abstract arena (load_save) and re-saving gives the same bytes (resave_identical); a fread-contract stream delivering any content in chunks of "
+         "arbitrary sizes is indistinguishable from the concatenation (load_chunked). The model is tied to arena.c by random op sequences and by running "
+         "the Lean loader/saver on real compiled-rule images (accepted, re-saved byte-identically, same read requests as the C loader). That the compiler "
+         "registers every pointer it stores (WF for real rule sets) is sampled: generated rule sets over all constructs are saved, loaded and compared "
+         "behaviourally (verdicts, match lists, tags, metas, externals) and byte-wise across two processes.",
     design_ref="DESIGN.md §5 C08, §4 D9",
     note=core.TB + "Rule constructs are sampled by a generator (every string kind, chained hex/regex strings, `matches` operands, text-string sets, loops, "
          "imports, four external types, namespaces, tags, metas); scan equality is checked on three generated buffers per rule set. "
@@ -75,6 +77,7 @@ def run(tier, replay=None):
     lres = core.lean_check(THM)
     core.proof_coverage(chk, lres, THM, th)
     b = core.build("asan", harness=["h_save", "h_arena"], **ac.REC)
+    bp = core.build("plain", harness=["h_save"])     # glibc malloc, ASLR effective: a third, differently laid out process
     findings = core.known_findings(PID)
     f8 = next((f for f in findings if f["id"] == "F8"), None)
     found = False
@@ -106,6 +109,15 @@ def run(tier, replay=None):
     out1, rc1, err1 = core.run_parallel([b["h_save"]], lines, env=env1)
     lines2 = [second_process_line(l, r) for l in lines]
     out2, rc2, err2 = core.run_parallel([b["h_save"]], lines2, env=env2)
+    lines3 = [l + " init=%d" % r.choice([2, 24, 512, 100000]) for l in lines]
+    out3, rc3, err3 = core.run_parallel([bp["h_save"]], lines3, env=ac.scratch_env(PID, {"MALLOC_PERTURB_": "170"}))
+    d3 = {}
+    for l in out3:
+        d = ac.fields(ac.split_ub(l)[0])
+        d3[d["id"]] = d
+    if rc3 != 0:
+        rc2 = rc2 or rc3
+        err2 += err3
     if rc1 != 0 or rc2 != 0:
         chk.violation("harness_crash.json", {"kind": "harness-failed", "rc": [rc1, rc2], "stderr": (err1 + err2)[-3000:], "harness": "h_save"})
         found = True
@@ -172,6 +184,14 @@ def run(tier, replay=None):
         if badx:
             viol("image-or-result-depends-on-the-process", cid, d, {"differs_in": badx, "second_process": {k: e.get(k, "")[:800] for k in badx},
                                                                    "second_line": second_process_line(byid[cid], core.rng("x"))})
+            continue
+        e3 = d3.get(cid)
+        if e3 is None or "CRASH" in e3:
+            viol("third-process-failed", cid, e3 or {})
+            continue
+        bad3 = [k for k in ("C", "E", "O", "IMG", "L", "LO", "IMG2") if d.get(k) != e3.get(k)]
+        if bad3:
+            viol("image-or-result-depends-on-the-process", cid, d, {"differs_in": bad3, "third_process_plain_build": {k: e3.get(k, "")[:800] for k in bad3}})
             continue
         st["agree"] += 1
         if not d.get("N", "0:0").startswith("0:") and not d.get("N", "0:0").endswith(":0"):
